@@ -44,3 +44,16 @@ for _pid, _fam in _MTP.items():
             {'harness': 'mt_private', 'mode': _fam, 'sources': ['harness/mt_private.c'], 'configs': both(['tsan']), 'workers': 4}]
         CHECKS[_pid]['assumptions'] = list(CHECKS[_pid].get('assumptions', [])) + [
             'supplement: 4 threads with private ' + _fam + ' objects under ThreadSanitizer (independent objects must not share hidden state)']
+
+# Caller-side supplement (harness/reread.c): accessors are read, the object is changed through the API and the
+# same accessors are read again inside ONE optimised caller function; a function attribute or an inline body in
+# a public header that lets the client's compiler keep a stale value (e.g. __attribute__((const)) on a getter)
+# breaks the property for every real client although the library object stays correct.
+_RRD = {'C01': 'trees', 'C02': 'trees', 'C03': 'hash', 'C05': 'memory', 'C07': 'heap', 'C08': 'map', 'C09': 'vector',
+        'C10': 'string', 'C12': 'dlist', 'C13': 'slist', 'C14': 'array'}
+for _pid, _fam in _RRD.items():
+    if _pid in CHECKS:
+        CHECKS[_pid]['runs'] = list(CHECKS[_pid]['runs']) + [
+            {'harness': 'reread', 'mode': _fam, 'sources': ['harness/reread.c'], 'configs': both(['rel-asan']), 'cflags': ['-O2'], 'workers': 1}]
+        CHECKS[_pid]['assumptions'] = list(CHECKS[_pid].get('assumptions', [])) + [
+            'supplement: look - change - look again with the ' + _fam + ' accessors inside one -O2 caller function (what a client compiler may assume from the public headers)']
